@@ -169,7 +169,15 @@ def gen_scenario(rng, nsec=None, kinds=None, fmts=None, **kw):
             fmt = "unified"     # an Index: line cannot carry a name with a blank
         if kind in ("add", "delete") and fmt in ("context", "normal"):
             fmt = "unified"     # known findings K2/K21: context/normal creation and deletion (operation inference)
-        secs.append(section(rng, p, kind=kind, fmt=fmt, width=(rng.choice([1, 2, 3]) if kind in ("add", "delete") or fmt == "normal" else None)))
+        sec_ = section(rng, p, kind=kind, fmt=fmt, width=(rng.choice([1, 2, 3]) if kind in ("add", "delete") or fmt == "normal" else None))
+        # two sections of one stream never write the same new name (two files renamed / copied to one name is not a diff of
+        # a tree to a tree)
+        tries = 0
+        while sec_["newpath"] != sec_["path"] and any(sec_["newpath"] in (y["newpath"], y["path"]) for y in secs) and tries < 20:
+            sec_ = section(rng, p, kind=kind, fmt=fmt); tries += 1
+        if sec_["newpath"] != sec_["path"] and any(sec_["newpath"] in (y["newpath"], y["path"]) for y in secs):
+            continue
+        secs.append(sec_)
     return base_scenario(rng, secs, **kw)
 
 
